@@ -426,10 +426,12 @@ def look_ahead_sets(prog):
                 todo.append(dp)
             else:
                 toks = []
-                for n in hir.nodes(inner, "Path"):
+                for n in hir.nodes_deep(prog, inner, 3, crate=c):
+                    if n.get("k") != "Path":
+                        continue
                     dd = n["res"]
-                    if dd.get("k") == "Def" and dd["p"] in tags:
-                        toks.append(tags[dd["p"]])
+                    if dd.get("k") == "Def" and (dd.get("rp") or dd["p"]) in tags:
+                        toks.append(tags[dd.get("rp") or dd["p"]])
                 elems.append(("seq", tuple(toks)))
         sets[b["name"]] = elems
         bodies[b["name"]] = b
@@ -476,6 +478,32 @@ def rule_sync_sets(prog):
         out.add("look_ahead::" + b, "contains look_ahead::" + a, ok, c.loc(bodies[names[b]]["sp"]),
                 "recovery inside a nested construct must stop wherever the enclosing construct's recovery stops; "
                 "missing: %s" % sorted(map(str, closure(names[a]) - closure(names[b]))))
+    # recovery in front of a statement list must stop at anything that starts a statement: the statement set contains FIRST(Statement),
+    # computed from the alternatives of the from-scratch branch of <Statement as Parser>::parse
+    stp = [b_ for b_ in c.bodies if b_["d"].endswith("<ast::Statement as parser::Parser>::parse")]
+    tags_ = tag_parsers(prog)
+    if stp:
+        alts_ = [n_ for n_ in hir.nodes(stp[0]["body"], "Call") if (hir.callee(n_) or "").endswith("nom::branch::alt")]
+        first = set()
+        if alts_:
+            rec = set(rb["p"] for rb, _, _ in recovery_sites(prog))
+            for el in hir.strip(alts_[-1]["args"][0]).get("es", []):
+                d_ = hir.path_def(hir.strip(el))
+                if d_ and (d_.get("rp") or d_.get("p")) in rec:
+                    continue
+                for x in hir.nodes_deep(prog, el, 3, crate=c):
+                    if x.get("k") == "Path" and x["res"].get("k") == "Def" and (x["res"].get("rp") or x["res"].get("p")) in tags_:
+                        first.add(tags_[x["res"].get("rp") or x["res"].get("p")])
+                        break
+        stmt_closure = closure(names["stmt"])
+        toks_in = set(x for x in stmt_closure if isinstance(x, str))
+        seq_heads = set(x[0] for x in stmt_closure if isinstance(x, tuple) and x)
+        for tk in sorted(first):
+            ok_ = tk in toks_in or tk in seq_heads
+            out.add("look_ahead::stmt", "contains the statement starter %s" % tk, ok_, c.loc(bodies[names["stmt"]]["sp"]),
+                    "a statement can begin with `%s`, but recovery in front of the statements of a body (the variable declaration recovery "
+                    "includes this set) does not stop there: the token is swallowed as part of a broken declaration - `proc main() { ; }` gets a "
+                    "syntax error" % tk)
     # every recovering parser skips to a set of its own: the five sets are pairwise different functions, so that the
     # nesting above is a statement about what each construct really uses
     for k, la in sorted(want.items()):
@@ -660,6 +688,16 @@ def rule_recovery_noconsume(prog):
                         "parse then depends on where comments are written" % n_["m"], ("take", "peek"))
     if n_peek == 0:
         out.missing("TokenStream::fragment() uses in the token parsers")
+    # ignore_until* step over exactly one raw token per iteration: comments behind a skipped token may be the documentation of the
+    # declaration recovery is looking for, so the stepping must not run the comment parser
+    for b in c.bodies:
+        if not b["p"].startswith("spl_frontend::parser::utility::ignore_until") or b["k"] == "closure":
+            continue
+        uses = [x for x in hir.nodes_deep(prog, b["body"], 2, crate=c) if x.get("k") == "Path" and x["res"].get("k") == "Def" and
+                (x["res"].get("rp") or x["res"].get("p")) in comments]
+        out.add(b["d"], "the recovery loop skips single tokens, never the comments behind them", not uses, c.loc((uses[0] if uses else b)["sp"]),
+                "the token-skipping loop also consumes comments: the error region swallows the doc comments of the declaration that "
+                "follows the damaged one (it loses its documentation, its range shrinks, the diagnostic covers foreign text)", ("recover",))
     # the five recovery parsers fail with the input they were given: whatever they consume in front of ignore_until (the
     # statement recovery skips comments first) must not stay consumed when there is nothing to ignore
     for rb, call, _la in recovery_sites(prog):
